@@ -28,6 +28,12 @@ pub struct Opts {
     pub only: Option<(String, u64)>,
     /// scale factor in percent applied to random stream sizes (C14 reduced-size runs, Miri)
     pub scale_pct: u64,
+    /// clamp every stream to this many cases (Miri / sanitizer runs); 0 = no clamp
+    pub max_cases: u64,
+    /// stream names to skip (too heavy for an interpreter)
+    pub skip: Vec<String>,
+    /// print a line per case to stderr (attribution of sanitizer reports)
+    pub trace_cases: bool,
     pub extra: Vec<String>,
 }
 
@@ -263,6 +269,11 @@ pub fn run_streams(opts: &Opts, streams: Vec<Stream>) -> RunResult {
         return RunResult { local: l, stream_counts, wall_s: start.elapsed().as_secs_f64() };
     }
     for s in &streams {
+        if opts.skip.iter().any(|x| x == s.name) {
+            continue;
+        }
+        let count = if opts.max_cases > 0 { s.count.min(opts.max_cases) } else { s.count };
+        let s = &Stream { name: s.name, count, grain: s.grain, f: Box::new(|i, r, l| (s.f)(i, r, l)) };
         stream_counts.push((s.name.to_string(), s.count));
         let next = AtomicU64::new(0);
         let results: Mutex<Vec<Local>> = Mutex::new(Vec::new());
@@ -281,6 +292,9 @@ pub fn run_streams(opts: &Opts, streams: Vec<Stream>) -> RunResult {
                         let hi = (lo + s.grain).min(s.count);
                         for idx in lo..hi {
                             l.index = idx;
+                            if opts.trace_cases {
+                                eprintln!("CASE {} {}", pname, idx);
+                            }
                             let mut rng = Rng::for_case(opts.seed, &pname, idx);
                             let r = guard(|| (s.f)(idx, &mut rng, &mut l));
                             if let Err(p) = r {
@@ -336,7 +350,7 @@ pub fn finish(opts: &Opts, rr: RunResult, rep: Report) -> i32 {
     }
     l.violations.sort_by(|a, b| (a.stream.as_str(), a.index, a.sig.as_str()).cmp(&(b.stream.as_str(), b.index, b.sig.as_str())));
     let distinct = l.nontrivial.len() as u64;
-    if opts.only.is_none() && distinct < rep.min_nontrivial {
+    if opts.only.is_none() && opts.max_cases == 0 && distinct < rep.min_nontrivial {
         l.inconclusive.push(format!(
             "monitor observed only {} distinct non-trivial cases (minimum {})",
             distinct, rep.min_nontrivial
